@@ -158,6 +158,11 @@ class SimWorld:
                 self.n_updates += 1
                 self.boundary()
             self.closed_market = True
+        if st_ == "reopen":
+            if not self.closed_market:
+                return
+            self.closed_market = False  # data for the closed market arrives again (re-settlement): it is open again
+            self.classes.add("market-reopened-after-closure")
         self.pre_feed_packages = [p for p in self.fw.handler_queue]
         self.s.step(0, step)
         self.n_updates += 1
@@ -1091,6 +1096,36 @@ def make_machine(world_cls, checks, cfg_strategy, rule_weights=None):
                       "size": 2.0, "pers": "LAPSE", "trade": "new", "reset_seconds": rs})
             self._do({"_": "book", "dt": d(st.sampled_from([200, 1000])), "rc": []})
 
+        @precondition(lambda self: rw.get("overlap_reset", 0) > 0)
+        @rule(data=st.data())
+        def rejoin_completed_trade(self, data):
+            """directed (C10): a trade completes (taker fill or full cancel), another trade then rests on the runner, and
+            a further order is requested IN the completed trade - it is a new entry for the limits and cool-downs,
+            whatever multi_order_trades says"""
+            if not self.w:
+                return
+            d = data.draw
+            si = d(st.integers(0, self.ns - 1))
+            r = d(st.integers(0, self.nr - 1))
+            mid = self.mids[r]
+            idx = len(self.w.lab.strategies[si].my_trades)
+            rs = d(st.sampled_from([0, 0, 5, 30]))
+            self._do({"_": "book", "dt": 1000, "rc": [{"r": r, "atb": [[mid - 1, 50.0]], "atl": [[mid + 1, 50.0]]}]})
+            self.books[r] = ([[mid - 1, 50.0]], [[mid + 1, 50.0]])
+            first = {"_": "req", "op": "place", "si": si, "r": r, "side": "BACK", "type": "LIMIT", "tick": max(0, mid - 3), "size": 2.0,
+                     "pers": "LAPSE", "trade": "new"}
+            if rs:
+                first["reset_seconds"] = rs
+            self._do(first)
+            self._do({"_": "book", "dt": 1000, "rc": []})  # matched in full on arrival: the trade completes
+            if d(st.booleans()):
+                self._do({"_": "req", "op": "place", "si": si, "r": r, "side": "BACK", "type": "LIMIT", "tick": min(self.nt - 1, mid + 6), "size": 2.0,
+                          "pers": "PERSIST", "trade": "new"})
+                self._do({"_": "book", "dt": d(st.sampled_from([200, 1000])), "rc": []})
+            self._do({"_": "req", "op": "place", "si": si, "r": r, "side": d(st.sampled_from(["BACK", "LAY"])), "type": "LIMIT",
+                      "tick": min(self.nt - 1, mid + 8), "size": 2.0, "pers": "LAPSE", "trade": idx, "reuse_completed_trade": True})
+            self._do({"_": "book", "dt": d(st.sampled_from([200, 1000])), "rc": []})
+
         @precondition(lambda self: rw.get("squeeze", 0) > 0)
         @rule(data=st.data())
         def moc_lay_partial_cancel(self, data):
@@ -1159,6 +1194,12 @@ def make_machine(world_cls, checks, cfg_strategy, rule_weights=None):
         def close(self, data):
             res = data.draw(st.lists(st.sampled_from(["WINNER", "LOSER", "LOSER"]), min_size=self.nr, max_size=self.nr))
             self._do({"_": "close", "dt": 1000, "results": res})
+
+        @precondition(lambda self: rw.get("reopen", 0) > 0 and self.w is not None and self.w.closed_market)
+        @rule()
+        def reopen(self):
+            self._do({"_": "reopen", "dt": 1000})
+            self._do({"_": "book", "dt": 1000, "rc": []})
 
         # ---- requests
         @precondition(lambda self: rw["place"] > 0)
